@@ -43,6 +43,19 @@ thread_local!(
     static SIM_ON: Cell<bool> = Cell::new(false);
 );
 
+thread_local!(static VERSION_FROZEN: Cell<bool> = Cell::new(false));
+
+/// Diagnostic knob: while set, the keyword set in force is always the default one, whatever the
+/// keyword-version stack holds (the stack itself keeps being pushed and popped).
+pub fn set_version_frozen(on: bool) {
+    VERSION_FROZEN.with(|x| x.set(on));
+}
+
+#[inline]
+pub fn version_frozen() -> bool {
+    VERSION_FROZEN.with(|x| x.get())
+}
+
 pub fn install(sim: Option<Arc<dyn Sim>>) {
     SIM_ON.with(|x| x.set(sim.is_some()));
     SIM.with(|x| *x.borrow_mut() = sim);
